@@ -36,10 +36,13 @@ PL == <<94, 97, 98, 36>>                                 \* ^ab$    a fully anch
 PL1 == <<94, 97>>                                        \* ^a
 PL2 == <<98, 36>>                                        \* b$
 PB == <<40, 97, 41, 98, 124, 97>>                        \* (a)b|a
-Patterns == {P0, P1, P2, P3, PE, PA, PI, PN, PQ, PL, PL1, PL2, PB}
+PBS == <<92, 92>>                                        \* \\   an escaped backslash, directly before the closing slash
+PBS2 == <<98, 92, 92>>                                   \* b\\
+PBS3 == <<92, 92, 40, 98, 124, 99, 41>>                  \* \\(b|c)
+Patterns == {P0, P1, P2, P3, PE, PA, PI, PN, PQ, PL, PL1, PL2, PB, PBS, PBS2, PBS3}
 
 Subjects == {<<97, 98, 97>>, <<120, 97, 98, 120>>, <<97, 98, 97, 98>>, <<>>, <<97>>, <<97, 98>>, <<97, 98, 99>>, <<99, 97, 98, 97>>, <<97, 98, 99, 97, 98, 99, 97, 98, 99, 97, 98, 99>>, <<120, 65, 97, 233, 97, 98>>,
-             <<98, 98>>, <<97, 47, 98>>, <<99>>}
+             <<98, 98>>, <<97, 47, 98>>, <<99>>, <<97, 92, 98, 92, 99>>, <<47, 92>>}
 
 TUnits == {<<36>>, <<48>>, <<49>>, <<50>>, <<120>>}
 Templates == UNION {[1..n -> TUnits] : n \in 0..MaxT}
@@ -77,8 +80,12 @@ Init == /\ \/ \E t \in Templates, p \in {P0, P1, P2, P3, P12, PQ, PB} : case = M
                   \/ case = MkCase(F("replace", <<S, RX(p), NLambda(<<"m">>, NConcat(NStr(<<36>>), NPath(<<NVar("m"), NName(<<109, 97, 116, 99, 104>>)>>, FALSE)))>>), Str(s))
            \* the literal applied as a function and the `next` chain
            \/ \E p \in Patterns, s \in Subjects : case = MkCase(NCall(RX(p), <<S>>), Str(s))
-           \/ \E p \in Patterns, s \in Subjects : case = MkCase(NPath(<<NBlock(<<NCall(RX(p), <<S>>)>>), NCall(NName(<<110, 101, 120, 116>>), <<>>)>>, FALSE), Str(s))
-           \/ \E p \in Patterns, s \in Subjects : case = MkCase(NPath(<<NBlock(<<NCall(RX(p), <<S>>)>>), NCall(NName(<<110, 101, 120, 116>>), <<>>), NCall(NName(<<110, 101, 120, 116>>), <<>>), NName(<<109, 97, 116, 99, 104>>)>>, FALSE), Str(s))
+           \* the `next` chain: a member cannot be called in a path step and a block cannot begin with a regex literal,
+           \* so the match object and its function values go through variables
+           \/ \E p \in Patterns, s \in Subjects : case = MkCase(NBlock(<<NAssign("m", NCall(RX(p), <<S>>)), NAssign("n", NPath(<<NVar("m"), NName(<<110, 101, 120, 116>>)>>, FALSE)), NCall(NVar("n"), <<>>)>>), Str(s))
+           \/ \E p \in Patterns, s \in Subjects : case = MkCase(NBlock(<<NAssign("m", NCall(RX(p), <<S>>)), NAssign("n", NPath(<<NVar("m"), NName(<<110, 101, 120, 116>>)>>, FALSE)), NAssign("m2", NCall(NVar("n"), <<>>)),
+                                                                        NAssign("n2", NPath(<<NVar("m2"), NName(<<110, 101, 120, 116>>)>>, FALSE)), NAssign("m3", NCall(NVar("n2"), <<>>)),
+                                                                        NArray(<<NPath(<<NVar("m3"), NName(<<109, 97, 116, 99, 104>>)>>, FALSE), NPath(<<NVar("m"), NName(<<109, 97, 116, 99, 104>>)>>, FALSE)>>)>>), Str(s))
            \* context defaulting
            \/ \E p \in Patterns, s \in Subjects : case = MkCase(NPath(<<NName(ka), F("match", <<RX(p)>>)>>, FALSE), Obj(<< <<ka, Str(s)>> >>))
         /\ out = Pending
